@@ -60,7 +60,10 @@ def gen_project(rng, ntasks, opts):
             if opts.get("after_needs_products", True):
                 ups = [u for u in ups if u["prods"]]
             same = [u["id"] for u in ups if u["module"] == d["module"]]
-            if ups and same and rng.random() < 0.5:
+            if rng.random() < opts.get("p_shared_after", 0.0):
+                # an expression shared by several tasks (it may match the task itself and later tasks)
+                d["after_expr"] = rng.choice(opts.setdefault("_after_pool", ["slow", "special", "gpu and slow", f"t{order[0]}_ or t{order[-1]}_"]))
+            elif ups and same and rng.random() < 0.5:
                 d["after_fn"] = same
             elif ups:
                 d["after_expr"] = " or ".join(f"t{u['id']}_" for u in ups)
@@ -85,7 +88,8 @@ def module_texts(root, tasks, intern):
 
 
 def gen_config(rng, tasks, opts):
-    cfg = {"force": False, "dry_run": False, "max_failures": None, "expression": "", "marker_expression": ""}
+    cfg = {"force": False, "dry_run": False, "max_failures": None, "expression": "", "marker_expression": "",
+           "capture": rng.choice(["fd", "fd", "sys", "tee-sys", "no"])}
     k = rng.random()
     if k < opts.get("p_force", 0.1):
         cfg["force"] = True
@@ -349,6 +353,11 @@ def history_term(case, obs):
                 snaps[int(base[6:-1])] = s
             if set(snaps) != {t["id"] for t in op["tasks"]}:
                 return None
+            for t in op["tasks"]:
+                sn = snaps[t["id"]]
+                if sorted([sn["name"]] + sn["attrs"] + sn["marks"]) != sorted(names_of(t, op["tasks"])):
+                    o["_name_mismatch"] = {"snapshot": sorted([sn["name"]] + sn["attrs"] + sn["marks"]), "expected": sorted(names_of(t, op["tasks"]))}
+                    return None
             sig2tid = {s["sig"]: tid for tid, s in snaps.items()}
             pref = [sig2tid[sig] for sig, _ in o.get("reports", []) if sig in sig2tid]
             tt = [task_term(t, snaps[t["id"]], o["mods"][str(t["module"])][0]) for t in op["tasks"]]
@@ -411,6 +420,47 @@ def compare(ci, mi):
 
 
 # ------------------------------------------------------------------ declared relation & ideal
+def names_of(t, tasks=()):
+    """Names the keyword matcher sees for a generated task (checked against the snapshot in run_engine)."""
+    marks = []
+    decorated = bool(t.get("marks") or t.get("prio") or t.get("persist") or t.get("skipifs") or t.get("skip"))
+    # after=[f] applies @task to f, but only if f carries no pytask metadata yet
+    referenced = (not decorated) and any(t["id"] in u.get("after_fn", []) for u in tasks)
+    if t.get("after_fn") or t.get("after_expr") is not None or t.get("use_decorator") or referenced:
+        marks.append("task")
+    marks += list(reversed(t.get("marks", [])))
+    if t.get("prio") == -1:
+        marks.append("try_last")
+    if t.get("prio") == 1:
+        marks.append("try_first")
+    if t.get("persist"):
+        marks.append("persist")
+    marks += ["skipif"] * len(t.get("skipifs", []))
+    if t.get("skip"):
+        marks.append("skip")
+    meta = ["pytask_meta"] if marks else []      # only decorated functions carry the attribute
+    return [f"task_m{t['module']}.py::task_t{t['id']}_"] + sorted(t.get("attrs", []) + meta) + marks
+
+
+def eval_expr(expr, pred):
+    toks = expr.replace("(", " ( ").replace(")", " ) ").split()
+    py = [t if t in ("and", "or", "not", "(", ")") else str(bool(pred(t))) for t in toks]
+    return eval(" ".join(py))  # noqa: S307
+
+
+def after_targets(t, tasks):
+    ups = set(t["after_fn"])
+    e = t.get("after_expr")
+    if e:
+        try:
+            for u in tasks:
+                if u["id"] != t["id"] and eval_expr(e, lambda a: any(a.lower() in n.lower() for n in names_of(u, tasks))):
+                    ups.add(u["id"])
+        except SyntaxError:
+            pass
+    return ups
+
+
 def declared_upstream(tasks):
     """task id -> set of task ids it directly depends on (product consumed, or `after`)."""
     prod_of = {p: t["id"] for t in tasks for p in t["prods"]}
@@ -419,11 +469,7 @@ def declared_upstream(tasks):
         for d in t["deps"]:
             if d in prod_of and prod_of[d] != t["id"]:
                 up[t["id"]].add(prod_of[d])
-        up[t["id"]].update(t["after_fn"])
-        if t["after_expr"]:
-            for u in tasks:
-                if u["id"] != t["id"] and any(a.strip() == f"t{u['id']}_" for a in t["after_expr"].split(" or ")):
-                    up[t["id"]].add(u["id"])
+        up[t["id"]].update(after_targets(t, tasks))
     return up
 
 
@@ -494,7 +540,7 @@ def run_engine(out, tier, seed, prop, opts, ncases, oracles, tag="eng"):
             continue
         ht = history_term(case, obs)
         if ht is None:
-            out.disagreement("collection did not yield the generated tasks", {"case": case, "obs": [o.get("tasks") for o in obs]})
+            out.disagreement("collection did not yield the generated tasks", {"mismatch": [o.get("_name_mismatch") for o in obs], "case": case})
             continue
         terms.append(ht); idx.append(ci)
     model = coq_eval_cases(f"{prop}_{tag}", IMPORTS, f"run_hist {coq_term(extra)} {coq_term(lt)}", terms, shard=opts.get("shard", 12))
